@@ -219,6 +219,7 @@ def run(ctx):
     reals = SC.run_scripts(ctx, "session", scripts)
     for s, r in zip(scripts, reals):
         oracle(ctx, s, r)
+        W.refused_leaves_no_trace(ctx, s, r, "c05")
     trxcon_end_to_end(ctx, rng)
     ctx.sample([SC.describe(o) for o in scripts[0][1][1:12]])
     ctx.count("commands", sum(1 for s in scripts for o in s[1] if o[0] == "ctrl"))
